@@ -1546,6 +1546,8 @@ impl Machine {
                 if crate::machine::verif_hooks::tick() {
                     break;
                 }
+                #[cfg(feature = "verif_hooks")]
+                crate::machine::verif_hooks::trace_p(self.machine_st.p);
 
                 interrupt_counter += 1;
                 if interrupt_counter.0 == 0 {
@@ -1626,6 +1628,8 @@ impl Machine {
                 if crate::machine::verif_hooks::tick() {
                     break;
                 }
+                #[cfg(feature = "verif_hooks")]
+                crate::machine::verif_hooks::trace_p(self.machine_st.p);
 
                 interrupt_counter += 1;
                 if interrupt_counter.0 == 0 {
